@@ -201,6 +201,27 @@ func (h *harness) aliasCase(r *rng, name string, nops int) {
 				if err != nil {
 					break
 				}
+				// the caller owns both slices including their capacity: using the spare capacity of one must
+				// not reach the other (nor anything else)
+				kc, vc := append([]byte(nil), k...), append([]byte(nil), v...)
+				func() {
+					defer func() {
+						if e := recover(); e != nil {
+							h.emit("aliasfail case=%s fs=%s writing into the spare capacity of a slice returned by Next faults: %v", name, fsName, e)
+							nfail++
+						}
+					}()
+					for _, sl := range [][]byte{k, v} {
+						full := sl[:cap(sl)]
+						for j := len(sl); j < len(full); j++ {
+							full[j] ^= 0xFF
+						}
+					}
+				}()
+				if !bytes.Equal(k, kc) || !bytes.Equal(v, vc) {
+					h.emit("aliasfail case=%s fs=%s the key and value returned by one Next call share memory (writing into the spare capacity of one changed the other)", name, fsName)
+					nfail++
+				}
 				keep = append(keep, kept{"Next(key)", k, append([]byte(nil), k...)}, kept{"Next(value)", v, append([]byte(nil), v...)})
 				if want, ok := model[string(k)]; ok && !bytes.Equal(v, want) && !scanDirty[string(k)] {
 					h.emit("aliasfail case=%s fs=%s Next returned a wrong value for key %s (queued slice changed under the iterator?)", name, fsName, k)
